@@ -297,3 +297,65 @@ def heavy_cases(sd, count, tail_share=0.0, widths=(64, 64, 64, 32, 32, 16, 8)):
         c["pop"] = "H"
         out.append(c)
     return out
+
+
+def gen_spin_in_loop(rng, w):
+    """A loop body that moves, copies, clears and prints values set up outside the loop, and then
+    never reaches its end (an empty loop on a non-zero cell): everything printed before the
+    divergence must be the canonical bytes, stores that are still pending outside included."""
+    b = B()
+    inputs = []
+    vals = {}
+    for i in range(4):                       # cells 0..3: constants built by a loop, or input bytes
+        if rng.random() < 0.6:
+            k, m = rng.randint(2, 11), rng.randint(2, 11)
+            b.const(8, k)
+            b.clear(i)
+            b.mulmove(8, [(i, m)])
+            if rng.random() < 0.5:
+                b.go(i)
+                b.raw("+" * rng.randint(1, 3))
+        else:
+            b.inp(i)
+            inputs.append(rng.randint(1, 200))
+    b.const(6, rng.randint(1, 3))
+    b.go(6)
+    b.raw("[")
+    for _ in range(rng.randint(2, 7)):
+        op = rng.randrange(6)
+        i, j = rng.sample(range(5), 2)
+        if op == 0:
+            b.clear(j)
+            b.mulmove(i, [(j, 1)])           # move i -> j
+        elif op == 1:
+            b.clear(4)
+            b.clear(5)
+            b.mulmove(i, [(4, 1), (5, 1)])
+            b.mulmove(5, [(i, 1)])           # copy i -> 4
+        elif op == 2:
+            b.out(i)
+        elif op == 3:
+            b.go(i)
+            b.raw(rng.choice(["+", "-", "++"]))
+        elif op == 4:
+            b.out(j)
+        else:
+            b.clear(i)
+    b.out(rng.randrange(5))
+    b.go(6)
+    b.raw("[]")
+    b.go(6)
+    b.raw("-]")
+    b.out(0)
+    return {"prog": b.text(), "input": inputs, "w": w, "accel": 1}
+
+
+def spin_cases(sd, count):
+    rng = random.Random(sd * 104729 + 7)
+    out = []
+    for i in range(count):
+        c = gen_spin_in_loop(rng, (8, 16, 32, 64)[i % 4])
+        c["id"] = "Hs%d" % i
+        c["pop"] = "H"
+        out.append(c)
+    return out
